@@ -1,5 +1,5 @@
 (* Proofs about the decision-table model of `swh identify` (model/Cli.v).
-   The domain is finite (1680 configurations): every universally quantified
+   The domain is finite (2400 configurations): every universally quantified
    statement is proved by evaluating a boolean check over the enumeration
    [all_cfgs] inside the kernel (vm_compute) and lifting it with
    [forallb_forall] and the completeness of the enumeration. *)
@@ -33,7 +33,7 @@ Qed.
 
 (* an injection of configurations into N: the index in the enumeration *)
 Definition cfg_code (c : cfg) : N :=
-  (let k : N := match arg c with AFile => 0 | ADir => 1 | ALinkFile => 2 | ALinkDir => 3 | AStdin => 4 | AUrl => 5 | AGitRepo => 6 end in
+  (let k : N := match arg c with AFile => 0 | ADir => 1 | ALinkFile => 2 | ALinkDir => 3 | AStdin => 4 | AUrl => 5 | AGitRepo => 6 | AMissing => 7 | ABadUrl => 8 | ARefusedUrl => 9 end in
   let t : N := match ty c with TAuto => 0 | TContent => 1 | TDirectory => 2 | TOrigin => 3 | TSnapshot => 4 end in
   let d : N := if deref c then 0 else 1 in
   let f : N := if fname c then 0 else 1 in
@@ -60,7 +60,7 @@ Proof.
     + apply IH. exact Hl.
 Qed.
 
-Theorem all_cfgs_count : length all_cfgs = 1680 /\ NoDup all_cfgs.
+Theorem all_cfgs_count : length all_cfgs = 2400 /\ NoDup all_cfgs.
 Proof.
   split; [vm_compute; reflexivity|].
   apply (NoDup_map_inv cfg_code). apply nodupb_sound. vm_compute. reflexivity.
@@ -147,7 +147,8 @@ Proof. exists (mkCfg AFile TDirectory true true false VNone false). split; vm_co
 (* verification is "supported" for a configuration when the specification
    does not name it as a documented unsupported combination *)
 Definition verify_supported (c : cfg) : bool :=
-  negb (rec_effective c) && negb (is_origin_obj (fst (designated c)) && match ver c with VMatch => true | _ => false end).
+  negb (is_nothing_obj (fst (designated c))) && negb (rec_effective c)
+  && negb (is_origin_obj (fst (designated c)) && match ver c with VMatch => true | _ => false end).
 
 Definition verify_exit_check (c : cfg) : bool :=
   implb (in_scope c)
@@ -243,26 +244,35 @@ Theorem agree_refuted_old_recfollows : exists c, in_scope c = true /\ in_scope_l
   spec c = Print OLinkText false true false /\ identify_model c = spec c.
 Proof. exists (mkCfg ALinkDir TAuto false true true VNone false). repeat split; vm_compute; reflexivity. Qed.
 
+(* swh identify https://example.org/<2100 characters>: the library's ValueError escaped *)
+Theorem agree_refuted_old_originuncaught : exists c, in_scope c = true /\ in_scope_literal c = true /\
+  nondefault c = 0 /\ identify_old_originuncaught c = Crash CrValueError /\
+  spec c = Usage /\ identify_model c = spec c.
+Proof. exists (mkCfg ARefusedUrl TAuto true true false VNone false). repeat split; vm_compute; reflexivity. Qed.
+
 (* each old behaviour broke exactly its class of in-scope configurations *)
 Definition old_exact_check (c : cfg) : bool :=
   implb (in_scope c)
     (Bool.eqb (negb (outcome_eqb (identify_old_realpath c) (spec c))) (old_realpath_class c)
      && Bool.eqb (negb (outcome_eqb (identify_old_rectype c) (spec c))) (old_rectype_class c)
      && Bool.eqb (negb (outcome_eqb (identify_old_autolink c) (spec c))) (old_autolink_class c)
-     && Bool.eqb (negb (outcome_eqb (identify_old_recfollows c) (spec c))) (old_recfollows_class c)).
+     && Bool.eqb (negb (outcome_eqb (identify_old_recfollows c) (spec c))) (old_recfollows_class c)
+     && Bool.eqb (negb (outcome_eqb (identify_old_originuncaught c) (spec c))) (old_originuncaught_class c)).
 
 Theorem old_deviations_exact : forall c, in_scope c = true ->
   (identify_old_realpath c <> spec c <-> old_realpath_class c = true) /\
   (identify_old_rectype c <> spec c <-> old_rectype_class c = true) /\
   (identify_old_autolink c <> spec c <-> old_autolink_class c = true) /\
-  (identify_old_recfollows c <> spec c <-> old_recfollows_class c = true).
+  (identify_old_recfollows c <> spec c <-> old_recfollows_class c = true) /\
+  (identify_old_originuncaught c <> spec c <-> old_originuncaught_class c = true).
 Proof.
   intros c Hs.
   assert (H : old_exact_check c = true) by (revert c Hs; intros c _; revert c; apply sweep; vm_compute; reflexivity).
   unfold old_exact_check in H. rewrite Hs in H. cbn [negb andb implb] in H.
-  apply andb_prop in H as [H H4]. apply andb_prop in H as [H H3]. apply andb_prop in H as [H1 H2].
-  apply eqb_prop in H1. apply eqb_prop in H2. apply eqb_prop in H3. apply eqb_prop in H4.
-  rewrite <- H1, <- H2, <- H3, <- H4. rewrite !negb_true_iff.
+  apply andb_prop in H as [H H5]. apply andb_prop in H as [H H4]. apply andb_prop in H as [H H3].
+  apply andb_prop in H as [H1 H2].
+  apply eqb_prop in H1. apply eqb_prop in H2. apply eqb_prop in H3. apply eqb_prop in H4. apply eqb_prop in H5.
+  rewrite <- H1, <- H2, <- H3, <- H4, <- H5. rewrite !negb_true_iff.
   repeat split; intros H; apply outcome_eqb_neq; exact H.
 Qed.
 
@@ -270,7 +280,8 @@ Theorem old_classes_sizes :
   length (filter (fun c => in_scope c && old_realpath_class c) all_cfgs) = 24 /\
   length (filter (fun c => in_scope c && old_rectype_class c) all_cfgs) = 20 /\
   length (filter (fun c => in_scope c && old_autolink_class c) all_cfgs) = 16 /\
-  length (filter (fun c => in_scope c && old_recfollows_class c) all_cfgs) = 24.
+  length (filter (fun c => in_scope c && old_recfollows_class c) all_cfgs) = 24 /\
+  length (filter (fun c => in_scope c && old_originuncaught_class c) all_cfgs) = 96.
 Proof. repeat split; vm_compute; reflexivity. Qed.
 
 (* ------------------------------------------------------------------ *)
@@ -280,9 +291,10 @@ Definition origin_id_given (c : cfg) : bool :=
   is_origin_obj (fst (designated c)) && match ver c with VMatch => true | _ => false end.
 
 Definition strict_class (c : cfg) : bool :=
-  (recur c && negb (rec_effective c) && (has_verify c || negb (type_is_auto_or_directory (ty c)))
-   && negb (origin_id_given c))
-  || (origin_id_given c && negb (recur c)).
+  negb (is_nothing_obj (fst (designated c)))
+  && ((recur c && negb (rec_effective c) && (has_verify c || negb (type_is_auto_or_directory (ty c)))
+       && negb (origin_id_given c))
+      || (origin_id_given c && negb (recur c))).
 
 (* [spec_strict] and [spec] differ exactly on: -r on a non-directory together
    with --verify or an explicit non-directory type (the code ignores -r with a
@@ -314,8 +326,8 @@ Theorem in_scope_satisfiable :
              identify_model c = Print ODirAtLinkTarget true false true /\ spec c = identify_model c) /\
   (exists c, in_scope c = true /\ nondefault c >= 3 /\
              identify_model c = Exit0 /\ spec c = Exit0) /\
-  length (filter in_scope all_cfgs) = 720 /\
-  length (filter in_scope_literal all_cfgs) = 672.
+  length (filter in_scope all_cfgs) = 912 /\
+  length (filter in_scope_literal all_cfgs) = 864.
 Proof.
   split; [|split; [|split]].
   - exists (mkCfg ALinkDir TDirectory true false true VNone true). repeat split; vm_compute; try reflexivity. lia.
@@ -323,3 +335,134 @@ Proof.
   - vm_compute; reflexivity.
   - vm_compute; reflexivity.
 Qed.
+
+(* ------------------------------------------------------------------ *)
+(* Several OBJECTS in one invocation                                   *)
+
+Definition crash_eq_dec (a b : crash) : {a = b} + {a <> b}.
+Proof. decide equality. Defined.
+Definition obj_eq_dec (a b : obj) : {a = b} + {a <> b}.
+Proof. decide equality. Defined.
+Definition res_eq_dec (a b : res) : {a = b} + {a <> b}.
+Proof. decide equality; try apply bool_dec; try apply obj_eq_dec; apply crash_eq_dec. Defined.
+Definition line_eq_dec (a b : line) : {a = b} + {a <> b}.
+Proof. repeat decide equality. Defined.
+Definition mend_eq_dec (a b : mend) : {a = b} + {a <> b}.
+Proof. decide equality. apply crash_eq_dec. Defined.
+Definition mout_eq_dec (a b : mout) : {a = b} + {a <> b}.
+Proof. decide equality; [apply mend_eq_dec|apply (list_eq_dec line_eq_dec)]. Defined.
+
+Definition decb {A} (dec : forall a b : A, {a = b} + {a <> b}) (a b : A) : bool :=
+  if dec a b then true else false.
+Lemma decb_eq : forall A (dec : forall a b : A, {a = b} + {a <> b}) a b, decb dec a b = true -> a = b.
+Proof. intros A dec a b. unfold decb. destruct (dec a b); [auto|discriminate]. Qed.
+
+(* the options of [c] do not depend on its [arg] *)
+Lemma with_arg_with_arg : forall c k k', with_arg (with_arg c k) k' = with_arg c k'.
+Proof. intros [k0 t d f r v x] k k'. reflexivity. Qed.
+
+Lemma with_arg_self : forall c, with_arg c (arg c) = c.
+Proof. intros [k0 t d f r v x]. reflexivity. Qed.
+
+(* one argument: the run is the outcome of the one-argument table, for EVERY
+   configuration (in scope or not) *)
+Theorem many_single : forall c k, identify_many c [k] = embed (identify_model (with_arg c k)).
+Proof.
+  assert (H : forall c, identify_many c [arg c] = embed (identify_model c)).
+  { intros c. apply (decb_eq _ mout_eq_dec). revert c. apply sweep. vm_compute. reflexivity. }
+  intros c k. rewrite <- (H (with_arg c k)).
+  destruct c as [k0 t d f r v x]. reflexivity.
+Qed.
+
+(* in scope, without --recursive and --verify, identify_object returns the
+   designated object, or refuses an argument that designates nothing *)
+Definition object_check (c : cfg) : bool :=
+  implb (in_scope c && negb (recur c) && negb (has_verify c))
+    (match spec c with
+     | Print o ex sh ls => decb res_eq_dec (identify_object current c) (ROk o ex) && Bool.eqb sh (fname c) && negb ls
+     | Usage => decb res_eq_dec (identify_object current c) RUsage
+     | _ => false
+     end).
+
+Lemma identify_object_spec : forall c, in_scope c = true -> recur c = false -> ver c = VNone ->
+  match spec c with
+  | Print o ex sh ls => identify_object current c = ROk o ex /\ sh = fname c /\ ls = false
+  | Usage => identify_object current c = RUsage
+  | _ => False
+  end.
+Proof.
+  intros c Hs Hr Hv.
+  assert (H : object_check c = true) by (revert c Hs Hr Hv; intros c _ _ _; revert c; apply sweep; vm_compute; reflexivity).
+  unfold object_check, has_verify in H. rewrite Hs, Hr, Hv in H. cbn [negb andb implb] in H.
+  destruct (spec c) as [o ex sh ls| | | |cr]; try discriminate.
+  - apply andb_prop in H as [H H3]. apply andb_prop in H as [H1 H2].
+    apply (decb_eq _ res_eq_dec) in H1. apply eqb_prop in H2. rewrite negb_true_iff in H3. auto.
+  - apply (decb_eq _ res_eq_dec) in H. exact H.
+Qed.
+
+Lemma run_objects_in_scope : forall c ks, recur c = false -> ver c = VNone ->
+  (forall k, In k ks -> in_scope (with_arg c k) = true) ->
+  run_objects current c ks = spec_run c ks.
+Proof.
+  intros c ks Hr Hv. induction ks as [|k ks IH]; intros Hin.
+  - reflexivity.
+  - cbn [run_objects spec_run].
+    assert (Hk : in_scope (with_arg c k) = true) by (apply Hin; left; reflexivity).
+    pose proof (identify_object_spec (with_arg c k) Hk) as Ho.
+    assert (Hr' : recur (with_arg c k) = false) by (destruct c; exact Hr).
+    assert (Hv' : ver (with_arg c k) = VNone) by (destruct c; exact Hv).
+    specialize (Ho Hr' Hv').
+    destruct (spec (with_arg c k)) as [o ex sh ls| | | |cr]; try contradiction.
+    + destruct Ho as [Ho [Hsh Hls]]. rewrite Ho. rewrite IH by (intros k' Hk'; apply Hin; right; exact Hk').
+      subst sh ls. destruct c; reflexivity.
+    + rewrite Ho. reflexivity.
+Qed.
+
+(* Any number of arguments: in scope, one invocation prints, in the order of
+   the arguments, exactly the line each argument gets when given alone - the
+   options (type, dereference, exclusion patterns, filename) reach every
+   argument alike - and --verify with several arguments is the documented
+   usage error. *)
+Theorem many_agree : forall c ks, in_scope_many c ks = true -> identify_many c ks = spec_many c ks.
+Proof.
+  intros c ks Hs. destruct ks as [|k1 [|k2 ks]].
+  - discriminate.
+  - cbn [in_scope_many] in Hs. rewrite many_single. cbn [spec_many]. f_equal. apply agree. exact Hs.
+  - cbn [in_scope_many] in Hs. apply andb_prop in Hs as [Hall Hr]. rewrite negb_true_iff in Hr.
+    rewrite forallb_forall in Hall.
+    unfold identify_many, identify_many_gen. cbn [spec_many length Nat.eqb negb].
+    destruct (has_verify c) eqn:Hv; [reflexivity|].
+    assert (Hver : ver c = VNone) by (unfold has_verify in Hv; destruct (ver c); [reflexivity|discriminate|discriminate]).
+    cbn [andb].
+    assert (Hp : verify_param_ok (with_arg c k1) = true) by (unfold verify_param_ok; destruct c; cbn in *; rewrite Hver; reflexivity).
+    rewrite Hp. cbn [negb]. rewrite Hr. cbn [andb].
+    rewrite (run_objects_in_scope c (k1 :: k2 :: ks) Hr Hver Hall). reflexivity.
+Qed.
+
+(* --recursive with several arguments (out of scope): only the first argument
+   is listed, the others are silently ignored:  swh identify -r DIR1 DIR2 *)
+Theorem many_recursive_first_only :
+  let c := mkCfg ADir TAuto true true true VNone false in
+  identify_many c [ADir; ADir] = MOut [(ODirAtPath, false, true, true)] MDone /\
+  spec_many c [ADir; ADir] = MOut [(ODirAtPath, false, true, true); (ODirAtPath, false, true, true)] MDone /\
+  in_scope_many c [ADir; ADir] = false.
+Proof. repeat split; vm_compute; reflexivity. Qed.
+
+(* an argument that cannot be identified ends the run with a usage error, after the lines of the ones before it *)
+Theorem many_usage_after_lines :
+  let c := mkCfg AFile TAuto true true false VNone false in
+  in_scope_many c [AFile; ABadUrl; ADir] = true /\
+  identify_many c [AFile; ABadUrl; ADir] = MOut [(OPathContent, false, true, false)] MUsageEnd /\
+  identify_many c [AMissing; AFile] = MOut [] MUsageEnd.
+Proof. repeat split; vm_compute; reflexivity. Qed.
+
+(* non-vacuity: `swh identify --no-dereference -x PAT dir dir link->dir file - url gitrepo` *)
+Theorem many_satisfiable :
+  let c := mkCfg AFile TAuto false true false VNone true in
+  let ks := [ADir; ADir; ALinkDir; AFile; AStdin; AUrl; AGitRepo] in
+  in_scope_many c ks = true /\
+  identify_many c ks = MOut [(ODirAtPath, true, true, false); (ODirAtPath, true, true, false);
+                             (OLinkText, false, true, false); (OPathContent, false, true, false);
+                             (OStdin, false, true, false); (OOrigin, false, true, false);
+                             (ODirAtPath, true, true, false)] MDone.
+Proof. split; vm_compute; reflexivity. Qed.
